@@ -95,12 +95,36 @@ type C16Endpoint struct {
 	UDPRelay *UDPRelay
 	intr     chan os.Signal
 	mu       sync.Mutex
+	// Host: how the upstream URL spells this endpoint and what its certificate is valid for: "" = 127.0.0.1 with a
+	// certificate for both spellings, "localhost" = by name with a certificate for the name only, "ip" = 127.0.0.1
+	// with a certificate for the addresses only.
+	Host string
 }
+
+// C16SpellHost rewrites the loopback address of a host:port for the chosen spelling.
+func C16SpellHost(hostport, host string) string {
+	if host == "localhost" {
+		return strings.Replace(hostport, "127.0.0.1", "localhost", 1)
+	}
+	return hostport
+}
+
+// NewC16EndpointHost is NewC16Endpoint with a host spelling (see C16Endpoint.Host).
+func NewC16EndpointHost(kind, name string, withCert bool, host string) (*C16Endpoint, error) {
+	c16HostMu.Lock()
+	defer c16HostMu.Unlock()
+	c16NextHost = host
+	defer func() { c16NextHost = "" }()
+	return NewC16Endpoint(kind, name, withCert)
+}
+
+var c16HostMu sync.Mutex
+var c16NextHost string
 
 // NewC16Endpoint starts target, server and relay. withCert: the server has a certificate (it offers
 // StartTLS; tcp+tls always has one).
 func NewC16Endpoint(kind, name string, withCert bool) (*C16Endpoint, error) {
-	e := &C16Endpoint{Kind: kind, Name: name, WithCert: withCert || kind == "tcp+tls", intr: make(chan os.Signal, 1)}
+	e := &C16Endpoint{Kind: kind, Name: name, WithCert: withCert || kind == "tcp+tls", intr: make(chan os.Signal, 1), Host: c16NextHost}
 	t, err := NewTarget(name, "tcp", "", true)
 	if err != nil {
 		return nil, err
@@ -137,6 +161,12 @@ func (e *C16Endpoint) StartServer() error {
 	cfg := cert.ServerConfig{}
 	if e.WithCert {
 		cfg.Certificate, cfg.PrivateKey = pk.Good.Cert, pk.Good.Key
+		switch e.Host {
+		case "localhost":
+			cfg.Certificate, cfg.PrivateKey = pk.GoodDNS.Cert, pk.GoodDNS.Key
+		case "ip":
+			cfg.Certificate, cfg.PrivateKey = pk.GoodIP.Cert, pk.GoodIP.Key
+		}
 	}
 	cfg.CaCertificate = pk.CA1
 	channels := server.Channels{&server.NetworkChannel{AbstractChannel: server.AbstractChannel{
@@ -240,11 +270,11 @@ func (e *C16Endpoint) Physical() int64 {
 func (e *C16Endpoint) URL() string {
 	switch e.Kind {
 	case "ws":
-		return "http://" + e.Relay.Addr + "/ws/all"
+		return "http://" + C16SpellHost(e.Relay.Addr, e.Host) + "/ws/all"
 	case "udp":
-		return "udp://" + e.UDPRelay.Addr
+		return "udp://" + C16SpellHost(e.UDPRelay.Addr, e.Host)
 	}
-	return e.Kind + "://" + e.Relay.Addr
+	return e.Kind + "://" + C16SpellHost(e.Relay.Addr, e.Host)
 }
 
 func (e *C16Endpoint) Close() {
@@ -287,6 +317,7 @@ func C16Upstream(url string) upstream.Upstream {
 //	hs-garbage   answers bytes that are no response at all, then closes
 //	hs-close     closes at once
 type C16Scripted struct {
+	Host         string // spelling of the host in the URL ("localhost" or "" = 127.0.0.1)
 	Kind, Manner string
 	Addr         string
 	accepts      int64
@@ -306,11 +337,11 @@ func (s *C16Scripted) Accepts() int64 { return atomic.LoadInt64(&s.accepts) }
 func (s *C16Scripted) URL() string {
 	switch s.Kind {
 	case "ws":
-		return "http://" + s.Addr + "/ws/all"
+		return "http://" + C16SpellHost(s.Addr, s.Host) + "/ws/all"
 	case "udp":
-		return "udp://" + s.Addr
+		return "udp://" + C16SpellHost(s.Addr, s.Host)
 	}
-	return s.Kind + "://" + s.Addr
+	return s.Kind + "://" + C16SpellHost(s.Addr, s.Host)
 }
 
 func (s *C16Scripted) hold(c net.Conn) {
